@@ -106,7 +106,9 @@ META = {
               "no task observes a time later than its enabling instant (C06.no_await_observes_later_time). Tied to the code by real async des simulations whose global record order and "
               "times are compared with the model, and whose measured budgets must equal the model's parameters."),
         design_ref="DESIGN.md §5 C06",
-        note=("Partial: the scheduler model is an abstraction of tokio validated only by the tie; single-waiter conditions; timers / inject queue / remote queue and cross-module wakes not covered. "
+        note=("Partial: the scheduler model is an abstraction of tokio validated only by the tie. Acceptance is an executable abstract specification (Spec/ExecSpec.lean); several waiters per condition, notify_waiters, "
+              "JoinHandle awaited by another task, timers through the inject queue and cross-module wakes (C06.foreign_wakes_wait_for_next_event: outside C06 as worded, polled at the module's next own event) are covered; "
+              "combinators with concurrent awaits inside one task (select!/join!/timeout), watch/broadcast/oneshot and the LocalSet remote queue are not. "
               "Trusted: Lean kernel, standard axioms, harness, driver, orchestrator. The model mirrors /repo after the two C06 repairs (event_interval, drain loop in Harness::exec)."),
         technique=_T),
     "C08": dict(
